@@ -424,6 +424,34 @@ def array_ufunc(ufunc, method, inputs, out, kw):
             return out[0]
         return r if r.ndim else bool(r)
 
+    if ENG.merge_abs and method == '__call__' and in_kind != 'c' and \
+            name in ('maximum', 'minimum', 'fmax', 'fmin', 'absolute', 'sign') and 'where' not in kw:
+        # merging semantics: If-terms instead of forking (chosen per harness)
+        arrs = [np.asarray(v, dtype=object) if not isinstance(v, np.ndarray) else v for v in ins]
+        bc = np.broadcast_arrays(*arrs) if len(arrs) > 1 else [arrs[0]]
+        r = np.empty(bc[0].shape, dtype=object)
+        for idx in np.ndindex(r.shape):
+            vs = [tolift(b[idx]) if not isinstance(b[idx], SD) else b[idx] for b in bc]
+            if any(isinstance(v, SD) for v in vs):
+                raise EngineGap('merge mode with dual numbers')
+            if name in ('maximum', 'fmax'):
+                r[idx] = SV(T.ite(T.le(vs[1].t, vs[0].t), vs[0].t, vs[1].t))
+            elif name in ('minimum', 'fmin'):
+                r[idx] = SV(T.ite(T.le(vs[0].t, vs[1].t), vs[0].t, vs[1].t))
+            elif name == 'absolute':
+                z = T.const(0) if vs[0].t.sort == T.R else T.iconst(0)
+                r[idx] = SV(T.ite(T.le(z, vs[0].t), vs[0].t, T.neg(vs[0].t)))
+            else:
+                z = T.const(0) if vs[0].t.sort == T.R else T.iconst(0)
+                one = T.const(1) if vs[0].t.sort == T.R else T.iconst(1)
+                r[idx] = SV(T.ite(T.lt(z, vs[0].t), one, T.ite(T.lt(vs[0].t, z), T.neg(one), z)))
+        if out is not None:
+            _plain(out[0])[...] = r
+            return out[0]
+        res = r.view(SymArray)
+        res._fake = FakeDtype(res_dt[0] if res_dt[0] is not None and res_dt[0].kind in 'fiu' else _guess(r))
+        return res if res.ndim else res.view(np.ndarray)[()]
+
     if name in _METHOD_UFUNCS and method == '__call__':
         ins = [_hygiene(np.array(v, dtype=object, copy=True) if isinstance(v, np.ndarray) else
                         np.array(_coerce_entry(v, in_kind), dtype=object), in_kind) for v in ins]
@@ -479,7 +507,7 @@ def _rewrap(r, dt):
 
 
 # ------------------------------------------------------------- factories
-def sym_array(name, shape, dtype='float64', order='C'):
+def sym_array(name, shape, dtype='float64', order='C', garbage=False):
     """Array of fresh symbols ``name_i`` (C-order numbering) with claimed dtype."""
     dt = np.dtype(dtype)
     shape = tuple(int(s) for s in (shape if isinstance(shape, (tuple, list)) else (shape,)))
@@ -487,11 +515,11 @@ def sym_array(name, shape, dtype='float64', order='C'):
     flat = np.empty(n, dtype=object)
     for i in range(n):
         if dt.kind == 'c':
-            flat[i] = SC(SV(T.var('%s_%dr' % (name, i))), SV(T.var('%s_%di' % (name, i))))
+            flat[i] = SC(SV(T.var('%s_%dr' % (name, i), T.R, garbage)), SV(T.var('%s_%di' % (name, i), T.R, garbage)))
         elif dt.kind in 'iu':
             flat[i] = SV(T.var('%s_%d' % (name, i), T.Z))
         else:
-            flat[i] = SV(T.var('%s_%d' % (name, i)))
+            flat[i] = SV(T.var('%s_%d' % (name, i), T.R, garbage))
     a = flat.reshape(shape)
     if order == 'F':
         a = np.asfortranarray(a)
